@@ -68,7 +68,9 @@ JUNK = {9: "J . 18446744073709551616 : integer beyond 64 bits", 10: "X.987654321
         4: "x" * 300, 5: "   trailing and leading blanks   ", 6: "(((( ]]]] ((((", 7: "12345 67890", 8: "=+=+=+=+="}
 FREE = {1: "free text line one", 2: "second line, with: punctuation. and a period"}
 FIN_SPELL = [lambda x: repr(x), lambda x: "%.2f" % x, lambda x: "%.5f" % x, lambda x: "%.8E" % x, lambda x: ("+%r" % x) if x >= 0 else repr(x),
-             lambda x: "%.9e" % x]
+             lambda x: "%.9e" % x,
+             # negative exponents (the scaled mantissas are exactly representable, so the literal denotes the same float)
+             lambda x: "%rE-2" % (x * 100.0), lambda x: "%re-01" % (x * 10.0)]
 
 
 def cell_value(cid):
@@ -76,12 +78,12 @@ def cell_value(cid):
 
 
 NULL_STYLES = {
-    "std": (-999.25, ["-999.25", "-999.2500", "-9.9925E2", "-999.250", "-0.99925e+3"], ["-999.2501", "-999.24", "-999.26", "-999.249999"]),
-    "int": (-9999, ["-9999", "-9999.0", "-9.999E3", "-9999.00"], ["-9999.01", "-9998.99", "-9998"]),
-    "zero": (0, ["0", "0.0", "0.000", "-0.0", "0E0"], ["0.01", "-0.01", "0.001"]),
-    "pos": (999, ["999", "999.00", "9.99e2", "+999"], ["999.01", "998.99"]),
+    "std": (-999.25, ["-999.25", "-999.2500", "-9.9925E2", "-999.250", "-0.99925e+3", "-0999.25", "-00999.250"], ["-999.2501", "-999.24", "-999.26", "-999.249999"]),
+    "int": (-9999, ["-9999", "-9999.0", "-9.999E3", "-9999.00", "-9999.", "-09999", "-9999.E0"], ["-9999.01", "-9998.99", "-9998"]),
+    "zero": (0, ["0", "0.0", "0.000", "-0.0", "0E0", "0.", "00", ".0"], ["0.01", "-0.01", "0.001"]),
+    "pos": (999, ["999", "999.00", "9.99e2", "+999", "999.", "0999", "+999.0"], ["999.01", "998.99"]),
     "large": (1e30, ["1e30", "1.0E+30", "1000000000000000019884624838656"], ["1.0000001e30", "9.99999e29"]),
-    "five": (5, ["5", "5.0", "5.00", "0.5e1"], ["5.01", "4.99"]),
+    "five": (5, ["5", "5.0", "5.00", "0.5e1", "5.", "05", "+5"], ["5.01", "4.99"]),
 }
 
 
